@@ -1313,10 +1313,14 @@ def _exact_history(m, b, k, h, F, d0, v0):
     from fractions import Fraction as Fr
 
     ok = [True]
+    track = [0, Fr(0)]  # largest denominator exponent, largest magnitude
 
     def c(x):
         if not _dyadic_ok(x):
             ok[0] = False
+        else:
+            track[0] = max(track[0], x.denominator.bit_length() - 1)
+            track[1] = max(track[1], abs(x))
         return x
 
     m, b, k, h, d0, v0 = (Fr(x) for x in (m, b, k, h, d0, v0))
@@ -1340,6 +1344,10 @@ def _exact_history(m, b, k, h, F, d0, v0):
     ext = [um] + d + [de]
     v = [v0] + [c(c(ext[j + 2] - ext[j]) / h2) for j in range(1, nt)]
     a = [c(c(c(ext[j + 2] - c(2 * ext[j + 1])) + ext[j]) / sqh) for j in range(nt)]
+    # head-room: all values are multiples of one quantum 2^-Q and small against 2^53 quanta, so the sums are exact in ANY
+    # order (a re-ordered but equivalent implementation gives the same bits)
+    if ok[0] and not track[1] * 2 ** track[0] * 64 < 2**53:
+        ok[0] = False
     return d, v, a, ok[0]
 
 
@@ -1458,6 +1466,9 @@ def oracle_newmark(ctx, spec, impl=None, report=None, suffix=""):
         if np.abs(res).max() > 1e-9 * max(np.abs(Fall[rf]).max(), 1e-300) or np.any(v[rf]) or np.any(a[rf]):
             fail("newmark-rf-static-" + form, "rf rows are not the static solution k_rf d = F, v = a = 0", float(np.abs(res).max()), 0.0)
     if not nonrf:
+        return
+    if rf and spec.get("terms"):
+        # nonlinear terms together with an rf partition: judged by oracle_nonlin_rf (the callbacks see another array at step 0)
         return
     ix = np.ix_(nonrf, nonrf)
     M, B, K = M[ix], B[ix], K[ix]
@@ -1871,9 +1882,9 @@ def gen_analytic(rng, balanced):
 
 
 def oracle_va_orders(ctx, spec):
-    """Observed orders of the returned velocities and accelerations (scalar closed-form problem): balanced start-up: second
-    order in the interior AND at the last step (the end point uses the extrapolated step, not a one-sided difference),
-    first order for a_0; unbalanced: first order for v and for a from the third sample on, no convergence for a_0, a_1."""
+    """Observed orders of the returned velocities and accelerations (scalar closed-form problem), balanced start-up: second
+    order in the interior AND over the last tenth of the record incl. the end point (the end point uses the extrapolated
+    step, not a one-sided difference), first order for a_0.  Unbalanced runs are recorded, not judged."""
     from pyyeti import ode
 
     m, b, k, T = spec["m"], spec["b"], spec["k"], spec["T"]
@@ -1886,15 +1897,18 @@ def oracle_va_orders(ctx, spec):
         sol = ode.SolveNewmark(np.array([m]), np.array([b]), np.array([k]), h).tsolve(f(t)[None, :], np.array([u(0.0)]), np.array([u1(0.0)]))
         v, a = sol.v[0], sol.a[0]
         errs["v-interior"].append(float(np.abs(v[1:-1] - u1(t[1:-1])).max()))
-        errs["v-last"].append(float(abs(v[-1] - u1(t[-1]))))
+        w = max(nt // 10, 2)  # the last tenth of the record, end point included (a single instant is not monotone in h)
+        errs["v-last"].append(float(np.abs(v[-w:] - u1(t[-w:])).max()))
         errs["a-interior"].append(float(np.abs(a[2:-1] - u2(t[2:-1])).max()))
-        errs["a-last"].append(float(abs(a[-1] - u2(t[-1]))))
+        errs["a-last"].append(float(np.abs(a[-w:] - u2(t[-w:])).max()))
         errs["a-initial"].append(float(abs(a[0] - u2(0.0))))
     bal = spec["balanced"]
     # unbalanced start-up: the first-order error component oscillates in time, so the error at ONE instant (the last step)
     # is not monotone in h; only the maxima over time are judged there
-    need = {"v-interior": 1.6 if bal else 0.75, "v-last": 1.6 if bal else None, "a-interior": 1.6 if bal else 0.75,
-            "a-last": 1.6 if bal else None, "a-initial": 0.75 if bal else None}
+    # (unbalanced runs are recorded only: near t = 0 the first-order component is not monotone in h at these step sizes;
+    # they are judged quantitatively by oracle_proved_bounds)
+    need = {"v-interior": 1.6 if bal else None, "v-last": 1.6 if bal else None, "a-interior": 1.6 if bal else None,
+            "a-last": 1.6 if bal else None, "a-initial": 0.5 if bal else None}
     scale = {"v": max(abs(u1(0.0)), spec["w"] * (abs(spec["al"]) + abs(spec["be"])), 1e-12),
              "a": max(spec["w"] ** 2 * (abs(spec["al"]) + abs(spec["be"])), 1e-12)}
     row = {"balanced": bal}
